@@ -833,4 +833,6 @@ CHECKS = [
     Check("pools_machine", case_timeout=60, timeout_is_violation=True, execute=exec_pools, strategy=pools_strategy, budget={"quick": 2000, "thorough": 80000}),
     Check("sim_ledger", sim_execute([J.judge_c04_e2e], lambda rec: rec.mon.idle_checks > 1 and rec.mon.ledger_ops > 2), strategy=e2e_worlds,
           budget={"quick": 1000, "thorough": 30000}),
+    Check("scripted_sim_ledger", sim_execute([J.judge_c04_e2e], lambda rec: rec.mon.idle_checks > 1 and rec.mon.ledger_ops > 2, max_steps=1500),
+          strategy=lambda tier: specs.scripted_worlds(batching=True, contention=True), budget={"quick": 400, "thorough": 20000}),
 ]
